@@ -1,18 +1,85 @@
-(* C10 — the property theorems, and nothing else. *)
-From VF Require Import Outputs.Model Outputs.Spec Outputs.Proofs.
+(* C10 — the property theorems, and nothing else.
+
+   Digests: [hash : blob D -> D] is an arbitrary function into an arbitrary
+   type with decidable equality, assumed injective on Directory messages
+   (SHA-256 collision free, proto.Marshal injective).  Nothing is assumed
+   across kinds of blobs.  Directory listings are arbitrary lists (the order
+   ReadDir returns is kept; a name listed twice is looked up at its first
+   occurrence). *)
+From Coq Require Import Permutation.
+From VF Require Import Outputs.Model Outputs.Spec Outputs.Proofs Outputs.ProofsMain.
 
 (* A command is accepted exactly if its working directory and all of its
    output paths are relative, free of NUL bytes and never leave the input
-   root (the running depth of the working directory followed by the path
-   stays non-negative). *)
+   root: the running depth (ordinary components minus "..") of the working
+   directory followed by the path never becomes negative. *)
 Theorem accepted_iff_inside : forall c,
   (exists h, new_hierarchy c = Some h) <-> acceptable c = true.
 Proof. exact new_hierarchy_iff. Qed.
 Print Assumptions accepted_iff_inside.
 
-(* An escaping working directory or output path makes the whole run stop
-   before anything is created, read or uploaded. *)
+(* An escaping (or absolute, or NUL-containing) working directory or output
+   path makes the whole run stop before anything happens: no directory is
+   created, the action is not run, nothing is read or uploaded. *)
 Theorem escape_rejected : forall D (D_eqb : D -> D -> bool) hash c force pre action,
   acceptable c = false -> run_action D_eqb hash c force pre action = Rejected.
 Proof. exact escape_rejected_lemma. Qed.
 Print Assumptions escape_rejected.
+
+(* After CreateParentDirectories the parent of every declared output is a
+   directory and no error is raised, provided the input root has nothing
+   but directories on the way to those parents.
+   (Without the proviso the statement is false of the code: with a regular
+   file "a" in the input root and output path "a/b", Mkdir("a") fails with
+   EEXIST, which is ignored, and no error is raised; see docs/areas/Outputs.md.) *)
+Theorem parents_exist : forall c h decls pre,
+  new_hierarchy c = Some h -> declared c = Some decls ->
+  (forall pl, In pl (parent_locs decls) -> clear pre pl = true) ->
+  exists mid, mk_parents (h_root h) pre = (true, mid) /\
+              forall pl, In pl (parent_locs decls) -> exists ces, probe mid pl = Found (Dir ces).
+Proof. exact ProofsParents.parents_exist_lemma. Qed.
+Print Assumptions parents_exist.
+
+(* uploadDirectory on a fresh state yields a Tree whose first record is the
+   root (tagged as such, the only one), in which every child digest that a
+   directory refers to occurs later, no digest occurs twice (identical
+   sub-directories are shared), every record but the root is referred to by
+   an earlier one, and which describes the directory: files with executable
+   bit and content digest, symlinks with target, sub-directories
+   recursively, special files left out. *)
+Theorem tree_wellformed : forall D (D_eqb : D -> D -> bool) (hash : blob D -> D),
+  (forall a b, D_eqb a b = true <-> a = b) ->
+  (forall m1 m2 : dirmsg D, hash (BDirectory m1) = hash (BDirectory m2) -> m1 = m2) ->
+  forall es uploads err,
+  let '(d, st) := up_dir D D_eqb hash es (mkDS D [] uploads err) in
+  exists root, d = hash_msg hash root /\
+               tree_describes D D_eqb hash (tag_root (rev (ds_dirs D st))) es root.
+Proof. exact tree_wellformed_lemma. Qed.
+Print Assumptions tree_wellformed.
+
+(* The ActionResult lists exactly the declared paths that exist with kind
+   file / directory / symlink — as multisets, under the declared strings,
+   once per declaration (duplicates and aliases included) — with executable
+   bit, content digest and symlink target; every reported directory has a
+   well-formed Tree that describes it; and UploadOutputs fails exactly if
+   some declared location is a special file, lies below a non-directory, or
+   is / contains a symlink whose target does not parse. *)
+Theorem outputs_exact : forall D (D_eqb : D -> D -> bool) (hash : blob D -> D),
+  (forall a b, D_eqb a b = true <-> a = b) ->
+  (forall m1 m2 : dirmsg D, hash (BDirectory m1) = hash (BDirectory m2) -> m1 = m2) ->
+  forall c h decls force es,
+  new_hierarchy c = Some h -> declared c = Some decls ->
+  let r := upload D D_eqb hash h force es in
+  let tad := c_tad c || force in
+  Permutation (r_files r) (exp_files hash decls es) /\
+  Permutation (r_syms r) (exp_syms decls es) /\
+  Permutation (map od_path (r_dirs r)) (exp_dir_paths decls es) /\
+  (forall o, In o (r_dirs r) ->
+     exists loc ces tms root,
+       In (od_path o, loc) decls /\ probe es loc = Found (Dir ces) /\
+       od_tree o = hash (BTree tms) /\ tree_describes D D_eqb hash tms ces root /\
+       od_sorted o = true /\
+       od_root o = (if tad then Some (hash_msg hash root) else None)) /\
+  r_err r = exp_err decls es.
+Proof. exact outputs_exact_full. Qed.
+Print Assumptions outputs_exact.
